@@ -60,7 +60,7 @@ def expr(fn, ref, depth=12, keep_casts=False, _memo=None):
         return a
     if op in ("call", "invoke"):
         return ("call", d.get("callee") or ("*" + str(expr(fn, d.get("fptr", "?"), 3))), i.id,
-                tuple(expr(fn, a, min(depth - 1, 4), keep_casts) for a in d["args"]))
+                tuple(expr(fn, a, min(depth - 1, 8), keep_casts) for a in d["args"]))
     if op == "phi":
         return ("phi", i.id)
     if op == "alloca":
